@@ -79,7 +79,7 @@ def _shard(name, shard, nshards, tier, seed):
     c = Corr(name)
     rng = np.random.default_rng([seed, shard, 11])
     if name == 'bond_ops.qr':
-        n = (1600 if tier == 'quick' else 16000) // nshards + 1
+        n = (1600 if tier == 'quick' else 80000) // nshards + 1
         cases = list(gen_cases(rng, n, 6 if tier == 'quick' else 9, big=(tier == 'thorough')))
     elif name == 'bond_ops.qr.enum':
         cases = []
